@@ -132,6 +132,9 @@ class AbstractGinGameState:
                 "take the up-card or pass"
             )
 
+        if from_discard and not self.discard:
+            raise ValueError("Cannot draw: the discard pile is empty")
+
         if from_discard:
             card_drawn: str = self.top_of_discard  # type: ignore
             self._add_to_hand(card_drawn)
